@@ -27,6 +27,7 @@ Record entry := mkEntry {
   e_type : entry_type;
   e_has_type : bool;
   e_data : bytes;
+  e_has_data : bool;   (* Data is non-nil (an empty non-nil slice still costs two bytes) *)
   e_leave : bool;
 }.
 
@@ -38,7 +39,7 @@ Definition bytes_eqb (a b : bytes) : bool := list_eqb N.eqb a b.
 Definition entry_eqb (a b : entry) : bool :=
   N.eqb (e_term a) (e_term b) && N.eqb (e_index a) (e_index b) &&
   entry_type_eqb (e_type a) (e_type b) && Bool.eqb (e_has_type a) (e_has_type b) &&
-  bytes_eqb (e_data a) (e_data b).
+  bytes_eqb (e_data a) (e_data b) && Bool.eqb (e_has_data a) (e_has_data b).
 
 (* protobuf varint length of a uint64 *)
 Definition varint_len (x : N) : N :=
@@ -51,7 +52,7 @@ Definition varint_len (x : N) : N :=
 Definition entry_size (e : entry) : N :=
   1 + varint_len (e_term e) + (1 + varint_len (e_index e)) +
   (if e_has_type e then 2 else 0) +
-  (match e_data e with [] => 0 | d => 1 + varint_len (nlen d) + nlen d end).
+  (if e_has_data e then 1 + varint_len (nlen (e_data e)) + nlen (e_data e) else 0).
 
 Definition ents_size (es : list entry) : N := fold_left (fun s e => s + entry_size e) es 0.
 Definition payload_size (e : entry) : N := nlen (e_data e).
